@@ -73,6 +73,7 @@ type options struct {
 }
 
 func newIndex(opts options) (idx *index, err error) {
+	opts.bytes = verifIndexBytes(opts.bytes)
 	if opts.bytes == 0 {
 		opts.bytes = 10 * 1024 * 1024
 	}
